@@ -244,6 +244,8 @@ class Net:
         self.errors = []
         self.transferred_blocks = 0
         self.held = set()     # nodes whose traffic and manager steps are withheld (a slow / late part of the network)
+        self.delivered = 0
+        self.budget = 60000   # deliveries per run; honest runs of this size need a few thousand
 
     def close(self):
         for s in self.socks:
@@ -318,8 +320,9 @@ class Net:
     def drain(self, with_steps=True):
         """random interleaving of deliveries (and manager steps) until nothing is in flight"""
         guard = 0
-        while self.in_flight() and guard < 200000:
+        while self.in_flight() and guard < 200000 and self.delivered < self.budget:
             guard += 1
+            self.delivered += 1
             if with_steps and self.rng.random() < 0.08:
                 i = self.rng.randrange(0, len(self.nodes))
                 node.CLOCK[0] += self.rng.choice([0, 1, 3])
@@ -345,6 +348,8 @@ class Net:
     def _windows(self, max_windows):
         self.drain()
         for w in range(max_windows):
+            if self.delivered >= self.budget:
+                return None                                   # the traffic does not come to rest
             node.CLOCK[0] += 61 + self.rng.randrange(0, 30)   # past EMPTY_INVENTORY_BACKOFF and IBD_PEER_TIMEOUT
             moved = self.transferred_blocks
             heads = [lp.chain_manager.coinstate.current_chain_hash for lp in self.nodes]
@@ -451,7 +456,8 @@ def part_b(ctx, res):
         if net.errors:
             res.violations.append({**info, "kind": "a handler raised between honest nodes: %s" % net.errors[0]})
         if windows is None:
-            res.violations.append({**info, "kind": "no fixpoint reached: blocks keep moving or heads keep changing"})
+            res.violations.append({**info, "kind": "no fixpoint reached: blocks keep moving, heads keep changing or the traffic "
+                                   "does not come to rest (%d deliveries)" % net.delivered})
         else:
             res.count("windows_to_fixpoint:%d" % min(windows, 9))
         for k, lp in enumerate(net.nodes):
